@@ -635,10 +635,12 @@ def parse_bitstream(s):
             if micro:
                 # terminator = mode indicator + char count all zero (or fewer bits at capacity)
                 if n - pos < term_len:
-                    if any(bits[pos:]):
-                        raise DecodeError('non-zero bits in truncated terminator')
-                    break
-                if not any(bits[pos:pos + term_len]):
+                    if not any(bits[pos:]):
+                        break
+                    # fewer bits than a full terminator and not all zero: not a (truncated) terminator but one more
+                    # short segment, e.g. an empty byte segment (indicator + count 0) that ends exactly at the capacity;
+                    # parsed like any other segment - running out of bits is reported by take()
+                elif not any(bits[pos:pos + term_len]):
                     # Could be a numeric segment with 0 chars == terminator
                     break
                 mi = take(mi_len) if mi_len else 0
